@@ -41,7 +41,7 @@ ASSUMPTIONS = [
 ]
 SIGNATURES = {}
 
-FEAT = gen.Feat(inherit=True, items=True, uncached=True, objrefs=False, shadow=False, max_top=3, max_child=2,
+FEAT = gen.Feat(inherit=True, items=True, item_base=True, uncached=True, objrefs=False, shadow=False, max_top=3, max_child=2,
                 max_cells=3, max_rank=3, depth=2, tick=False)
 DEL_KINDS = ["del_cells", "del_cells", "del_space", "del_space", "del_ref", "remove_bases", "add_bases", "rename_cells",
              "rename_space", "set_cells_formula", "override", "new_cells", "set_formula", "del_formula", "set_ref"]
